@@ -79,6 +79,12 @@ Definition spec_archive (l : list entry) (closed : bool) (impl : sx) : bool * sx
     end
   else (true, SL []).                       (* outside the domain: nothing claimed; model = impl is still checked *)
 
+(* when must every hard-link member of the real archive name an earlier regular member?  On
+   views whose links are closed, and (Properties/C17.filtered_links_resolve) on every listing
+   the filters leave of a canonical walk whose link groups are of one type *)
+Definition resolvable (l : list entry) : bool :=
+  wf_links (map fst l) && group_types_agree l && wf_listing_b (reset_entries l).
+
 (* kind 1701: input = (view chunklen); impl = archive result of the real WriteTar *)
 Definition run_1701 (input impl : sx) : sx :=
   match input with
@@ -91,7 +97,7 @@ Definition run_1701 (input impl : sx) : sx :=
       (* on a view whose links are closed the reset changes nothing: the expectation is the
          view's own walk, independently of the reset model *)
       let l_spec := if links_closed l then l else reset_entries l in
-      let sp := spec_archive l_spec (links_closed l) impl in
+      let sp := spec_archive l_spec (links_closed l || resolvable l) impl in
       verdict m impl (fst sp) (snd sp)
     end
   | _ => v_malformed
@@ -130,7 +136,7 @@ Definition run_1702 (input impl : sx) : sx :=
       (* reset = true: the listing already went through the real WithHardlinkReset and is the
          expectation as it stands; otherwise the reset model gives the expected link names *)
       let l_spec := if reset then l else reset_entries l in
-      let sp := spec_archive l_spec (links_closed vl) res in
+      let sp := spec_archive l_spec (links_closed vl || resolvable l) res in
       verdict m impl (sub_ok && fst sp) (if negb sub_ok then SL [SB [115; 117; 98]] else snd sp)
     | _, _, _ => v_malformed
     end
